@@ -127,7 +127,8 @@ def check_symbols(sc, ls):
                 eng.check(isinstance(ref, gtirb.ProxyBlock) and ref in m.proxies,
                           "C02 symbol %s of a block deleted with retarget_to_proxy does not refer to a proxy" % it.sym)
                 continue
-            eng.check(isinstance(ref, gtirb.ByteBlock), "C02 symbol %s has no block referent: %r" % (it.sym, ref))
+            eng.check(isinstance(ref, gtirb.ByteBlock), "C02 symbol %s has no block referent: %r" % (it.sym, ref),
+                      finding=_endlabel_proxy_finding(sc) if isinstance(ref, gtirb.ProxyBlock) else None)
             eng.check(ref.byte_interval is not None and ref.module is m and ref.byte_interval in bases,
                       "C02 symbol %s refers to a block that left the module" % it.sym)
             eng.check(ref.section is sect, "C02 symbol %s ended up in another section" % it.sym)
@@ -494,8 +495,29 @@ def make_check_C01(tier):
     return make_rewrite_check("C01", tier, ["C01"])
 
 
+def _endlabel_proxy_finding(sc):
+    """An insertion at the very end of block X together with a whole-block retarget_to_proxy deletion of the block that
+    follows X: the labels at the end of X (its end-of-block labels, a trailing label of the patch) slide onto the next
+    block first and then share its fate."""
+    mods = sc.spec.get("mods", [])
+    for ss in sc.spec["sections"]:
+        order = [b["id"] for b in ss["blocks"]]
+        natoms = {b["id"]: len(b["atoms"]) for b in ss["blocks"]}
+        for i in mods:
+            if i["op"] == "insert" and i.get("blk") in order and i["at"] == natoms[i["blk"]]:
+                k = order.index(i["blk"])
+                if k + 1 < len(order) and any(d["op"] == "delete" and d["blk"] == order[k + 1] and d.get("proxy") and d["at"] == 0
+                                              and d["to"] == natoms[order[k + 1]] for d in mods):
+                    return "C02-end-labels-follow-the-next-block-into-its-proxy"
+    return None
+
+
 def make_check_C02(tier):
-    return make_rewrite_check("C02", tier, ["C02"])
+    from harness import rewrite_shapes
+    chk = make_rewrite_check("C02", tier, ["C02"])
+    for sid, spec in rewrite_shapes.endlabel_next_proxy_shapes():
+        chk.add(sid, h_rewrite, params=dict(spec=spec, props=["C02"]), timeout=900, allow_no_pass=True)
+    return chk
 
 
 def make_check_C04(tier):
